@@ -132,6 +132,7 @@ def run_batch(prop_id: str, seed: int, tier: str, indices: list[int], out_path: 
             continue
         run = {"index": idx, "H": res["H"], "C": res["C"], "stats": res["stats"], "sigs": [f["sig"] for f in res["failures"]],
                "wall": round(time.time() - t_run, 2)}
+        print(f"run {idx} {run['wall']}s sigs={len(run['sigs'])}", flush=True)
         if res.get("harness"):
             harness.append({"index": idx, "error": res["harness"]})
         runs.append(run)
